@@ -1,12 +1,12 @@
 //go:build verif
 
-// Contracts for answer.go (promises, futures): lock discipline and map safety (C10, C11).
+// Contracts for answer.go (promises, futures): lock discipline and map safety (C11).
 package capnp
 
 // Lock typestate only (PARTIAL): every path through Client releases every promise mutex it
 // acquired; nothing else of the function is decided.
 //@ func Future.Client -> c
-//@   props C10 C11
+//@   props C11
 //@   locktypestate
 //@   partial lock
 //@   requires f != nil && f.promise != nil && nolocks()
